@@ -44,8 +44,8 @@ Theorem gate_holds_over_histories : forall mac c reqs h,
 Proof. exact run_jwt_ok. Qed.
 Print Assumptions gate_holds_over_histories.
 
-Theorem decision_independent_of_hit_counters : forall mac h h' c now t,
-  snd (parse_token mac h c now t) = snd (parse_token mac h' c now t).
+Theorem decision_independent_of_hit_counters : forall mac rs rs' h h' c now t,
+  snd (parse_token mac rs h c now t) = snd (parse_token mac rs' h' c now t).
 Proof. exact parse_token_history_irrelevant. Qed.
 Print Assumptions decision_independent_of_hit_counters.
 
@@ -132,16 +132,17 @@ Qed.
    attribute of X-Content-Security is present, the fingerprint names a configured key, the
    secret decrypts under it to (key, timestamp, type), the timestamp is within the
    tolerance of now, and the signature is the MAC under that key of exactly
-   (timestamp, method, path, query, sha256(body)) — with the path/query that
+   (timestamp, method, path, query, sha256(body)) — the key being the one the route group's
+   own map [decs] gives for the fingerprint (last entry wins), and with the path/query that
    getPathQuery selects (the X-Request-Uri header if present, else the URL). *)
 Theorem strict_runs_only_if_signed :
-  forall rsa_dec cmac sha aes_ok E D b64enc b64dec decs tol now limit r resp,
+  forall ulfix rsa_dec cmac sha aes_ok E D b64enc b64dec decs tol now limit r resp,
   checked (r_method r) = true ->
-  o_ran (cs_handler rsa_dec cmac sha aes_ok E D b64enc b64dec true decs tol now limit r resp) = true ->
-  exists fp sc sg sec key ct ts,
-    h_fp (r_hdr r) = Some fp /\ In fp decs /\
+  o_ran (cs_handler ulfix rsa_dec cmac sha aes_ok E D b64enc b64dec true decs tol now limit r resp) = true ->
+  exists fp kid sc sg sec key ct ts,
+    h_fp (r_hdr r) = Some fp /\ find_key fp decs = Some kid /\
     h_secret (r_hdr r) = Some sc /\ h_sig (r_hdr r) = Some sg /\
-    rsa_dec fp sc = Some sec /\ sk_key sec = Some key /\ sk_ctype sec = Some ct /\
+    rsa_dec kid sc = Some sec /\ sk_key sec = Some key /\ sk_ctype sec = Some ct /\
     sk_tsval sec = Some ts /\ now - tol <= ts <= now + tol /\
     sg = cmac key (sk_tsid sec, r_method r, fst (path_query r), snd (path_query r), sha (r_body r)).
 Proof. exact strict_ran_signed. Qed.
@@ -149,22 +150,22 @@ Print Assumptions strict_runs_only_if_signed.
 
 (* ... and without an X-Request-Uri header that is the request's own path and query *)
 Theorem strict_runs_only_if_signed_url :
-  forall rsa_dec cmac sha aes_ok E D b64enc b64dec decs tol now limit r resp,
+  forall ulfix rsa_dec cmac sha aes_ok E D b64enc b64dec decs tol now limit r resp,
   checked (r_method r) = true -> r_xuri r = None ->
-  o_ran (cs_handler rsa_dec cmac sha aes_ok E D b64enc b64dec true decs tol now limit r resp) = true ->
+  o_ran (cs_handler ulfix rsa_dec cmac sha aes_ok E D b64enc b64dec true decs tol now limit r resp) = true ->
   SignedRequest rsa_dec cmac sha decs tol now r (r_path r, r_query r).
 Proof.
   intros until resp. intros Hc Hx Hr.
-  pose proof (strict_ran_signed rsa_dec cmac sha aes_ok E D b64enc b64dec decs tol now limit r resp Hc Hr) as S.
+  pose proof (strict_ran_signed ulfix rsa_dec cmac sha aes_ok E D b64enc b64dec decs tol now limit r resp Hc Hr) as S.
   unfold path_query in S. rewrite Hx in S. exact S.
 Qed.
 Print Assumptions strict_runs_only_if_signed_url.
 
 Theorem strict_unsigned_gets_403 :
-  forall rsa_dec cmac sha aes_ok E D b64enc b64dec decs tol now limit r resp,
+  forall ulfix rsa_dec cmac sha aes_ok E D b64enc b64dec decs tol now limit r resp,
   checked (r_method r) = true ->
   ~ SignedRequest rsa_dec cmac sha decs tol now r (path_query r) ->
-  cs_handler rsa_dec cmac sha aes_ok E D b64enc b64dec true decs tol now limit r resp = mkHout false 403 [] [] false.
+  cs_handler ulfix rsa_dec cmac sha aes_ok E D b64enc b64dec true decs tol now limit r resp = mkHout false 403 [] [] false.
 Proof. exact strict_unsigned_403. Qed.
 Print Assumptions strict_unsigned_gets_403.
 
@@ -172,7 +173,7 @@ Print Assumptions strict_unsigned_gets_403.
    secret, timestamp and signature, kept) gets 403 unless the MAC collides on the two
    signed strings. *)
 Theorem signed_request_mutation_rejected :
-  forall rsa_dec cmac sha aes_ok E D b64enc b64dec decs tol now limit r r' resp,
+  forall ulfix rsa_dec cmac sha aes_ok E D b64enc b64dec decs tol now limit r r' resp,
   checked (r_method r) = true -> checked (r_method r') = true ->
   r_xuri r = None -> r_xuri r' = None ->
   SignedRequest rsa_dec cmac sha decs tol now r (r_path r, r_query r) ->
@@ -181,7 +182,7 @@ Theorem signed_request_mutation_rejected :
   (forall key tsid, cmac_injective_for cmac key
       (tsid, r_method r, r_path r, r_query r, sha (r_body r))
       (tsid, r_method r', r_path r', r_query r', sha (r_body r'))) ->
-  cs_handler rsa_dec cmac sha aes_ok E D b64enc b64dec true decs tol now limit r' resp = mkHout false 403 [] [] false.
+  cs_handler ulfix rsa_dec cmac sha aes_ok E D b64enc b64dec true decs tol now limit r' resp = mkHout false 403 [] [] false.
 Proof. exact signed_mutation_rejected. Qed.
 Print Assumptions signed_request_mutation_rejected.
 
@@ -189,10 +190,10 @@ Print Assumptions signed_request_mutation_rejected.
    a PATCH request with no X-Content-Security header at all runs the handler in strict
    mode, for every instantiation of the cryptography. *)
 Theorem other_methods_bypass_refuted :
-  forall rsa_dec cmac sha aes_ok E D b64enc b64dec decs tol now limit,
+  forall ulfix rsa_dec cmac sha aes_ok E D b64enc b64dec decs tol now limit,
   exists r resp,
     r_hdr r = mkHdr None None None /\ checked (r_method r) = false /\
-    o_ran (cs_handler rsa_dec cmac sha aes_ok E D b64enc b64dec true decs tol now limit r resp) = true.
+    o_ran (cs_handler ulfix rsa_dec cmac sha aes_ok E D b64enc b64dec true decs tol now limit r resp) = true.
 Proof.
   intros. exists (mkReq 5 1 1 None (mkHdr None None None) 0 []), [].
   repeat split.
@@ -209,16 +210,17 @@ Definition ex_secret := mkSecret (Some 3) 1 (Some 500) (Some 0).
 Definition ex_rsa (fp sc : Z) : option cs_secret := if (fp =? 1) && (sc =? 1) then Some ex_secret else None.
 Definition ex_req (p q : Z) (x : option (Z * Z)) :=
   mkReq 3 p q x (mkHdr (Some 1) (Some 1) (Some (ex_cmac 3 (1, 3, 1, 1, 9)))) 0 [].
-Definition ex_handler := cs_handler ex_rsa ex_cmac (fun _ => 9) (fun _ => true) (fun _ b => b) (fun _ b => b)
-                                    (fun b => b) (fun b => Some b) true [1] 10 505 1024.
+Definition ex_handler := cs_handler false ex_rsa ex_cmac (fun _ => 9) (fun _ => true) (fun _ b => b) (fun _ b => b)
+                                    (fun b => b) (fun b => Some b) true [(1, 1)] 10 505 1024.
 
 Theorem xuri_override_refuted :
   o_ran (ex_handler (ex_req 2 2 (Some (1, 1))) []) = true /\
-  ~ SignedRequest ex_rsa ex_cmac (fun _ => 9) [1] 10 505 (ex_req 2 2 (Some (1, 1))) (2, 2).
+  ~ SignedRequest ex_rsa ex_cmac (fun _ => 9) [(1, 1)] 10 505 (ex_req 2 2 (Some (1, 1))) (2, 2).
 Proof.
   split; [vm_compute; reflexivity|].
-  intros (fp&sc&sg&sec&key&ct&ts&A1&A2&A3&A4&A5&A6&A7&A8&A9&A10).
+  intros (fp&kid&sc&sg&sec&key&ct&ts&A1&A2&A3&A4&A5&A6&A7&A8&A9&A10).
   cbn in A1, A3, A4. injection A1 as <-. injection A3 as <-. injection A4 as <-.
+  vm_compute in A2. injection A2 as <-.
   vm_compute in A5. injection A5 as <-. cbn in A6. injection A6 as <-.
   vm_compute in A10. discriminate.
 Qed.
@@ -229,11 +231,11 @@ Print Assumptions xuri_override_refuted.
 Example ex_signed_accepted :
   ex_handler (ex_req 1 1 None) [7] = mkHout true 200 [] [7] false /\
   ex_handler (mkReq 4 1 1 None (r_hdr (ex_req 1 1 None)) 0 []) [7] = mkHout false 403 [] [] false /\
-  SignedRequest ex_rsa ex_cmac (fun _ => 9) [1] 10 505 (ex_req 1 1 None) (1, 1).
+  SignedRequest ex_rsa ex_cmac (fun _ => 9) [(1, 1)] 10 505 (ex_req 1 1 None) (1, 1).
 Proof.
   split; [vm_compute; reflexivity|]. split; [vm_compute; reflexivity|].
-  exists 1, 1, (ex_cmac 3 (1, 3, 1, 1, 9)), ex_secret, 3, 0, 500.
-  repeat split; try reflexivity; try (left; reflexivity); lia.
+  exists 1, 1, 1, (ex_cmac 3 (1, 3, 1, 1, 9)), ex_secret, 3, 0, 500.
+  repeat split; try reflexivity; lia.
 Qed.
 
 (* ====================== padding, ECB, cryption handler =================== *)
@@ -270,7 +272,7 @@ Print Assumptions ecb_decrypt_encrypt_roundtrip.
 (* Handler level: the encrypted body (known length, within the limit) reaches the route
    handler decrypted, and the response on the wire is the base64 of a ciphertext that
    decrypts to exactly what the handler wrote — for any payloads. *)
-Theorem body_roundtrip : forall aes_ok (E D : Z -> list Z -> list Z) b64enc b64dec,
+Theorem body_roundtrip : forall ulfix aes_ok (E D : Z -> list Z -> list Z) b64enc b64dec,
   (forall key b, length b = bsn -> D key (E key b) = b) ->
   (forall key b, length b = bsn -> length (E key b) = bsn) ->
   (forall x, b64dec (b64enc x) = Some x) ->
@@ -278,30 +280,49 @@ Theorem body_roundtrip : forall aes_ok (E D : Z -> list Z -> list Z) b64enc b64d
   forall limit key p c resp,
   aes_ok key = true -> ecb_encrypt aes_ok E key p = Ok c ->
   (limit <= 0 \/ len (b64enc c) <= limit) ->
-  crypt_handler aes_ok E D b64enc b64dec limit key (len (b64enc c)) (b64enc c) resp
+  crypt_handler ulfix aes_ok E D b64enc b64dec limit key (len (b64enc c)) (b64enc c) resp
     = mkHout true 200 p (flush aes_ok E b64enc key resp) false /\
   (resp <> [] ->
    exists c', flush aes_ok E b64enc key resp = b64enc c' /\ b64dec (b64enc c') = Some c' /\
               ecb_decrypt aes_ok D key c' = Ok resp).
 Proof.
-  intros aes_ok E D b64enc b64dec DE Elen B1 B2 limit key p c resp K Ec Hl. split.
-  - apply (body_roundtrip_request aes_ok E D b64enc b64dec DE Elen B1 B2 limit key p c resp K Ec Hl).
+  intros ulfix aes_ok E D b64enc b64dec DE Elen B1 B2 limit key p c resp K Ec Hl. split.
+  - apply (body_roundtrip_request aes_ok E D b64enc b64dec DE Elen B1 B2 ulfix limit key p c resp K Ec Hl).
   - intros NE. apply (body_roundtrip_response aes_ok E D b64enc b64dec DE Elen B1 key resp K NE).
 Qed.
 Print Assumptions body_roundtrip.
 
-Theorem cryption_handler_never_panics : forall aes_ok E D b64enc b64dec limit key clen wire resp,
-  o_panic (crypt_handler aes_ok E D b64enc b64dec limit key clen wire resp) = false.
-Proof. exact handler_never_panics. Qed.
+Theorem cryption_handler_never_panics : forall ulfix aes_ok E D b64enc b64dec limit key clen wire resp,
+  o_panic (crypt_handler ulfix aes_ok E D b64enc b64dec limit key clen wire resp) = false.
+Proof. intros. apply handler_never_panics. Qed.
 Print Assumptions cryption_handler_never_panics.
 
-(* KNOWN FINDING (unknown length): with ContentLength <= 0 (chunked upload) the body is
-   handed to the route handler as it came, i.e. still encrypted. *)
+(* Bodies of UNKNOWN length (ContentLength = -1, chunked upload).
+   Without the repair pending/C18-unknown-length.diff (ulfix = false, what coq/gen/C18Consts.v
+   says about today's tree is an obligation in GenProofs.v) the statement "an encrypted body
+   reaches the handler decrypted" is refuted: the body is handed over as it came. *)
 Theorem unknown_length_not_decrypted_refuted :
   forall aes_ok E D b64enc b64dec limit key wire resp,
-  o_seen (crypt_handler aes_ok E D b64enc b64dec limit key (-1) wire resp) = wire.
-Proof. intros. apply unknown_length_passthrough. lia. Qed.
+  o_seen (crypt_handler false aes_ok E D b64enc b64dec limit key (-1) wire resp) = wire.
+Proof. intros. apply unknown_length_passthrough; [reflexivity|lia]. Qed.
 Print Assumptions unknown_length_not_decrypted_refuted.
+
+(* With the repair it holds for every payload, exactly as for bodies with a length. *)
+Theorem unknown_length_body_roundtrip : forall aes_ok (E D : Z -> list Z -> list Z) b64enc b64dec,
+  (forall key b, length b = bsn -> D key (E key b) = b) ->
+  (forall key b, length b = bsn -> length (E key b) = bsn) ->
+  (forall x, b64dec (b64enc x) = Some x) ->
+  (forall x, x <> [] -> b64enc x <> []) ->
+  forall limit key p c resp,
+  aes_ok key = true -> ecb_encrypt aes_ok E key p = Ok c ->
+  (limit <= 0 \/ len (b64enc c) <= limit) ->
+  crypt_handler true aes_ok E D b64enc b64dec limit key (-1) (b64enc c) resp
+    = mkHout true 200 p (flush aes_ok E b64enc key resp) false.
+Proof.
+  intros aes_ok E D b64enc b64dec DE Elen B1 B2 limit key p c resp K Ec Hl.
+  apply (body_roundtrip_unknown_length aes_ok E D b64enc b64dec DE Elen B1 B2 true limit key p c resp eq_refl K Ec Hl).
+Qed.
+Print Assumptions unknown_length_body_roundtrip.
 
 (* non-vacuity: a concrete block permutation (reverse the block), identity base64: the
    hypotheses of [body_roundtrip] hold and a 17-byte payload round-trips through two blocks *)
